@@ -65,24 +65,25 @@ class World:
         elif k == "opt":
             inner = self.sort(t.args[0])
             dt = z3.Datatype(f"Opt<{inner}>")
-            dt.declare("none")
-            dt.declare("some", ("val", inner))
+            dt.declare(f"none<{inner}>")
+            dt.declare(f"some<{inner}>", (f"oval<{inner}>", inner))
             s = dt.create()
         elif k == "list":
             inner = self.sort(t.args[0])
             dt = z3.Datatype(f"List<{inner}>")
-            dt.declare("mk", ("len", z3.IntSort()), ("arr", z3.ArraySort(z3.IntSort(), inner)))
+            dt.declare(f"mkL<{inner}>", (f"len<{inner}>", z3.IntSort()), (f"arr<{inner}>", z3.ArraySort(z3.IntSort(), inner)))
             s = dt.create()
         elif k == "dict":
             ks, vs = self.sort(t.args[0]), self.sort(t.args[1])
             dt = z3.Datatype(f"Dict<{ks},{vs}>")
-            dt.declare("mk", ("has", z3.ArraySort(ks, z3.BoolSort())), ("val", z3.ArraySort(ks, vs)))
+            dt.declare(f"mkD<{ks},{vs}>", (f"has<{ks},{vs}>", z3.ArraySort(ks, z3.BoolSort())), (f"val<{ks},{vs}>", z3.ArraySort(ks, vs)))
             s = dt.create()
         elif k == "set":
             s = z3.ArraySort(self.sort(t.args[0]), z3.BoolSort())
         elif k == "tuple":
-            dt = z3.Datatype("Tup<" + ",".join(str(self.sort(a)) for a in t.args) + ">")
-            dt.declare("mk", *[(f"f{i}", self.sort(a)) for i, a in enumerate(t.args)])
+            tn = "Tup<" + ",".join(str(self.sort(a)) for a in t.args) + ">"
+            dt = z3.Datatype(tn)
+            dt.declare("mk" + tn, *[(f"f{i}{tn}", self.sort(a)) for i, a in enumerate(t.args)])
             s = dt.create()
         elif k == "obj":
             s = self.obj(t.name)[0]
